@@ -331,3 +331,248 @@ Proof. exact (source_accepted_values_safe C07_linebreaks_rejected). Qed.
 
 Print Assumptions C07_source_check_valid_is_model.
 Print Assumptions C07_source_linebreaks_rejected.
+
+(* ---------------------------------------------------------------- translator tie of the OMEN readers (T19)
+
+   gen/Loader2_gen.v is the translation of the Python text of lib_guesser/omen/input_file_io.py (load_rules,
+   _load_config, _load_alphabet, _load_ngrams, _load_length) and of lib_scorer/omen_scorer.py
+   (OmenScorer.__init__, _load_omen), redone on every run by harness/translate_loader2.py over the
+   dynamically typed runtime theories/Loader2Rt.v.  For EVERY world W (what configparser, int(), os.path.join
+   and the two ways of opening a file return: any line lists, any exceptions) the translated functions
+   compute the hand-written models of theories/Loader2Model.v, which read a level file line by line the way
+   TextFile.level_items / ln_levels / cp_dict do (C07_source_omen_lines_are_level_items ...). *)
+From Pcfg Require Loader2Rt Loader2Model Loader2GenProofs Loader2OmenFacts.
+From PcfgGen Require Loader2_gen.
+
+(* load_rules called on an empty dict: True and the dict of Loader2Model.enc_omen_tables (alphabet_encoding,
+   ngram, max_level = 10, alphabet, ip / ln as {0..10: list}, ep, cp as nested dicts in file order) when every
+   file reads, else False (when the exception is one `except Exception` catches; the runtime's own
+   XUnmodelled would escape) *)
+Theorem C07_source_omen_load_rules_is_model :
+  forall (fo : fops) (C S : Type) (W : Loader2Rt.world fo C S) (iws : N -> bool) (dz : list N),
+  (forall s, Loader2Rt.w_pint W s = parse_int iws dz s) -> forall dir : pstr,
+  match Loader2Model.omen_guesser_load fo W iws dz dir with
+  | inl t => Loader2_gen.py_omen_load_rules fo W (Loader2Rt.VStr dir) (Loader2Rt.VDict []) =
+             Loader2Rt.XDone (Loader2Model.enc_omen_tables t, Loader2Rt.VBool true)
+  | inr e => exists g', Loader2_gen.py_omen_load_rules fo W (Loader2Rt.VStr dir) (Loader2Rt.VDict []) =
+                        if Loader2Rt.x_isa (Loader2Rt.XC LoaderRt.CException) e
+                        then Loader2Rt.XDone (g', Loader2Rt.VBool false) else Loader2Rt.XFail e
+  end.
+Proof. exact (@Loader2GenProofs.omen_load_rules_cases). Qed.
+
+(* OmenScorer(base_directory, encoding, max_omen_level) on a fresh instance: the object with the attributes of
+   Loader2Model.enc_scorer (ip / cp as dicts in file order, a later line of the same n-gram overwrites; ln with
+   the leading '10'; ngram = the length of the n-gram of the first CP line, -1 without one; max_len), or the
+   exception of the first line that does not read *)
+Theorem C07_source_omen_scorer_init_is_model :
+  forall (fo : fops) (C S : Type) (W : Loader2Rt.world fo C S) (iws : N -> bool) (dz : list N),
+  (forall s, Loader2Rt.w_pint W s = parse_int iws dz s) ->
+  forall (base enc : pstr) (vmax : Loader2Rt.pyval (F fo) C S),
+  Loader2_gen.py_omen_scorer_init fo W (Loader2Rt.VObj []) (Loader2Rt.VStr base) (Loader2Rt.VStr enc) vmax =
+  match Loader2Model.omen_scorer_load fo W iws dz base enc with
+  | inl t => Loader2Rt.XDone (Loader2Model.enc_scorer (Loader2Rt.VStr enc) vmax t, Loader2Rt.VNone)
+  | inr e => Loader2Rt.XFail e
+  end.
+Proof. exact (@Loader2GenProofs.omen_scorer_init_eq). Qed.
+
+(* the line-by-line models read what the readers of TextFile.v (the models of the round trips above and of the
+   correspondence) read *)
+Theorem C07_source_omen_lines_are_level_items : forall (iws : N -> bool) (dz : list N) maxlvl lines,
+  level_items iws dz maxlvl lines =
+  match Loader2Model.level_lines iws dz maxlvl lines with inl its => Some its | inr _ => None end.
+Proof. exact Loader2OmenFacts.level_lines_items. Qed.
+
+Theorem C07_source_omen_lines_are_ln_levels : forall (iws : N -> bool) (dz : list N) maxlvl lines,
+  ln_levels iws dz maxlvl lines =
+  match Loader2Model.ln_lines iws dz maxlvl lines with inl ls => Some ls | inr _ => None end.
+Proof. exact Loader2OmenFacts.ln_lines_levels. Qed.
+
+Theorem C07_source_omen_cp_lines_are_cp_dict : forall (iws : N -> bool) (dz : list N) maxlvl lines,
+  match Loader2Model.cp_lines iws dz maxlvl lines [] with
+  | inl d => exists its, level_items iws dz maxlvl lines = Some its /\ cp_dict its = Some d
+  | inr _ => match level_items iws dz maxlvl lines with Some its => cp_dict its = None | None => True end
+  end.
+Proof. exact Loader2OmenFacts.cp_lines_is_cp_dict. Qed.
+
+Print Assumptions C07_source_omen_load_rules_is_model.
+Print Assumptions C07_source_omen_scorer_init_is_model.
+Print Assumptions C07_source_omen_cp_lines_are_cp_dict.
+
+(* ---- C07 round trips of the OMEN files over the TRANSLATED per-file readers of the guesser: the text the OMEN
+   writer model produces (write_levels / write_alphabet / write_ln: OmenTrainer.level_text ... are these, see
+   the C07_source_omen_writer_text theorems below), read through codecs.open / open, gives the written tables back *)
+From Pcfg Require Loader2RoundTrip Loader2GrammarGenProofs.
+From PcfgGen Require Loader2Grammar_gen.
+
+Theorem C07_roundtrip_omen_ip_translated :
+  forall (fo : fops) (C S : Type) (W : Loader2Rt.world fo C S),
+  (forall s, Loader2Rt.w_pint W s = parse_int IWS DZ s) ->
+  forall (dir file : pstr) (g : list (Loader2Rt.pyval (F fo) C S * Loader2Rt.pyval (F fo) C S)) (enc : pstr) (l : list (Z * str)),
+  Loader2Rt.dfind (Loader2Rt.VStr Loader2Model.k_alphabet_encoding) g = Some (Loader2Rt.VStr enc) ->
+  Loader2Rt.dfind (Loader2Rt.VStr Loader2Model.k_max_level) g = Some (Loader2Rt.VInt 10) ->
+  Forall level_item_ok l ->
+  Loader2Rt.w_codecs_open W (Loader2Rt.w_path_join W [dir; file]) (Some enc) (Some Loader2Model.k_strict) =
+    Loader2Rt.XDone (lines_keep LB (write_levels l)) ->
+  Loader2_gen.py_omen_load_ngrams fo W (Loader2Rt.VStr dir) (Loader2Rt.VStr file) (Loader2Rt.VDict g) (Loader2Rt.VStr Loader2Model.k_ip) =
+  Loader2Rt.XDone (Loader2Rt.VDict (Loader2Rt.dput (Loader2Rt.VStr Loader2Model.k_ip)
+                     (Loader2Model.enc_buckets Loader2Model.enc_strs (ip_buckets l)) g), Loader2Rt.VNone).
+Proof. exact (@Loader2RoundTrip.roundtrip_omen_ip_translated). Qed.
+
+Theorem C07_roundtrip_omen_ep_translated :
+  forall (fo : fops) (C S : Type) (W : Loader2Rt.world fo C S),
+  (forall s, Loader2Rt.w_pint W s = parse_int IWS DZ s) ->
+  forall (dir file : pstr) (g : list (Loader2Rt.pyval (F fo) C S * Loader2Rt.pyval (F fo) C S)) (enc : pstr) (l : list (Z * str)),
+  Loader2Rt.dfind (Loader2Rt.VStr Loader2Model.k_alphabet_encoding) g = Some (Loader2Rt.VStr enc) ->
+  Loader2Rt.dfind (Loader2Rt.VStr Loader2Model.k_max_level) g = Some (Loader2Rt.VInt 10) ->
+  Forall level_item_ok l ->
+  Loader2Rt.w_codecs_open W (Loader2Rt.w_path_join W [dir; file]) (Some enc) (Some Loader2Model.k_strict) =
+    Loader2Rt.XDone (lines_keep LB (write_levels l)) ->
+  Loader2_gen.py_omen_load_ngrams fo W (Loader2Rt.VStr dir) (Loader2Rt.VStr file) (Loader2Rt.VDict g) (Loader2Rt.VStr Loader2Model.k_ep) =
+  Loader2Rt.XDone (Loader2Rt.VDict (Loader2Rt.dput (Loader2Rt.VStr Loader2Model.k_ep) (Loader2Model.enc_ep (ep_dict l)) g), Loader2Rt.VNone).
+Proof. exact (@Loader2RoundTrip.roundtrip_omen_ep_translated). Qed.
+
+Theorem C07_roundtrip_omen_cp_translated :
+  forall (fo : fops) (C S : Type) (W : Loader2Rt.world fo C S),
+  (forall s, Loader2Rt.w_pint W s = parse_int IWS DZ s) ->
+  forall (dir file : pstr) (g : list (Loader2Rt.pyval (F fo) C S * Loader2Rt.pyval (F fo) C S)) (enc : pstr) (l : list (Z * str)),
+  Loader2Rt.dfind (Loader2Rt.VStr Loader2Model.k_alphabet_encoding) g = Some (Loader2Rt.VStr enc) ->
+  Loader2Rt.dfind (Loader2Rt.VStr Loader2Model.k_max_level) g = Some (Loader2Rt.VInt 10) ->
+  Forall level_item_ok l -> Forall (fun it => snd it <> []) l ->
+  Loader2Rt.w_codecs_open W (Loader2Rt.w_path_join W [dir; file]) (Some enc) (Some Loader2Model.k_strict) =
+    Loader2Rt.XDone (lines_keep LB (write_levels l)) ->
+  exists d, cp_dict l = Some d /\
+    Loader2_gen.py_omen_load_ngrams fo W (Loader2Rt.VStr dir) (Loader2Rt.VStr file) (Loader2Rt.VDict g) (Loader2Rt.VStr Loader2Model.k_cp) =
+    Loader2Rt.XDone (Loader2Rt.VDict (Loader2Rt.dput (Loader2Rt.VStr Loader2Model.k_cp) (Loader2Model.enc_cp d) g), Loader2Rt.VNone).
+Proof. exact (@Loader2RoundTrip.roundtrip_omen_cp_translated). Qed.
+
+Theorem C07_roundtrip_omen_alphabet_translated :
+  forall (fo : fops) (C S : Type) (W : Loader2Rt.world fo C S)
+         (dir file : pstr) (g : list (Loader2Rt.pyval (F fo) C S * Loader2Rt.pyval (F fo) C S)) (enc : pstr) (a : list str),
+  Loader2Rt.dfind (Loader2Rt.VStr Loader2Model.k_alphabet_encoding) g = Some (Loader2Rt.VStr enc) ->
+  Forall (fun c => safe c = true) a ->
+  Loader2Rt.w_codecs_open W (Loader2Rt.w_path_join W [dir; file]) (Some enc) (Some Loader2Model.k_strict) =
+    Loader2Rt.XDone (lines_keep LB (write_alphabet a)) ->
+  Loader2_gen.py_omen_load_alphabet fo W (Loader2Rt.VStr dir) (Loader2Rt.VStr file) (Loader2Rt.VDict g) =
+  Loader2Rt.XDone (Loader2Rt.VDict (Loader2Rt.dput (Loader2Rt.VStr Loader2Model.k_alphabet) (Loader2Model.enc_strs a) g), Loader2Rt.VNone).
+Proof. exact (@Loader2RoundTrip.roundtrip_omen_alphabet_translated). Qed.
+
+Theorem C07_roundtrip_omen_ln_translated :
+  forall (fo : fops) (C S : Type) (W : Loader2Rt.world fo C S),
+  (forall s, Loader2Rt.w_pint W s = parse_int IWS DZ s) ->
+  forall (dir file : pstr) (g : list (Loader2Rt.pyval (F fo) C S * Loader2Rt.pyval (F fo) C S)) (n : Z) (l : list Z),
+  Loader2Rt.dfind (Loader2Rt.VStr Loader2Model.k_max_level) g = Some (Loader2Rt.VInt 10) ->
+  Forall (fun z => (0 <= z <= 10)%Z) l ->
+  Loader2Rt.w_open W (Loader2Rt.w_path_join W [dir; file]) None None = Loader2Rt.XDone (lines_text (TextFile.write_ln l)) ->
+  Loader2_gen.py_omen_load_length fo W (Loader2Rt.VStr dir) (Loader2Rt.VStr file) (Loader2Rt.VDict g) (Loader2Rt.VStr Loader2Model.k_ln) (Loader2Rt.VInt n) =
+  Loader2Rt.XDone (Loader2Rt.VDict (Loader2Rt.dput (Loader2Rt.VStr Loader2Model.k_ln)
+                     (Loader2Model.enc_buckets Loader2Model.enc_ints (ln_guesser n l)) g), Loader2Rt.VNone).
+Proof. exact (@Loader2RoundTrip.roundtrip_omen_ln_translated). Qed.
+
+(* the whole Omen directory: the translated load_rules, called on an empty dict over the five files the writer
+   model produces (config.txt names the encoding and the n-gram size), returns True and exactly the written
+   tables: writer model -> reader = identity on the tables *)
+Theorem C07_roundtrip_omen_directory_translated :
+  forall (fo : fops) (C S : Type) (W : Loader2Rt.world fo C S),
+  (forall s, Loader2Rt.w_pint W s = parse_int IWS DZ s) ->
+  forall (dir : pstr) (c : C) (enc ntext : pstr) (n : Z) (a : list str) (ip ep cp : list (Z * str)) (lv : list Z),
+  let pj := Loader2Rt.w_path_join W in
+  Loader2Rt.cp_read (Loader2Rt.w_cfg W) (pj [dir; Loader2Model.n_config_txt]) = Loader2Rt.XDone c ->
+  Loader2Rt.cp_get (Loader2Rt.w_cfg W) c Loader2Model.k_training_settings Loader2Model.k_encoding = Loader2Rt.XDone enc ->
+  Loader2Rt.cp_get (Loader2Rt.w_cfg W) c Loader2Model.k_training_settings Loader2Model.k_ngram = Loader2Rt.XDone ntext ->
+  parse_int IWS DZ ntext = Some n ->
+  Forall (fun ch => safe ch = true) a -> Forall level_item_ok ip -> Forall level_item_ok ep -> Forall level_item_ok cp ->
+  Forall (fun it => snd it <> []) cp -> Forall (fun z => (0 <= z <= 10)%Z) lv ->
+  Loader2Rt.w_codecs_open W (pj [dir; Loader2Model.n_alphabet_txt]) (Some enc) (Some Loader2Model.k_strict) = Loader2Rt.XDone (lines_keep LB (write_alphabet a)) ->
+  Loader2Rt.w_codecs_open W (pj [dir; Loader2Model.n_ip_level]) (Some enc) (Some Loader2Model.k_strict) = Loader2Rt.XDone (lines_keep LB (write_levels ip)) ->
+  Loader2Rt.w_codecs_open W (pj [dir; Loader2Model.n_ep_level]) (Some enc) (Some Loader2Model.k_strict) = Loader2Rt.XDone (lines_keep LB (write_levels ep)) ->
+  Loader2Rt.w_codecs_open W (pj [dir; Loader2Model.n_cp_level]) (Some enc) (Some Loader2Model.k_strict) = Loader2Rt.XDone (lines_keep LB (write_levels cp)) ->
+  Loader2Rt.w_open W (pj [dir; Loader2Model.n_ln_level]) None None = Loader2Rt.XDone (lines_text (TextFile.write_ln lv)) ->
+  exists d, cp_dict cp = Some d /\
+    Loader2_gen.py_omen_load_rules fo W (Loader2Rt.VStr dir) (Loader2Rt.VDict []) =
+    Loader2Rt.XDone (Loader2Model.enc_omen_tables
+                       {| Loader2Model.ot_encoding := enc; Loader2Model.ot_ngram := n; Loader2Model.ot_alphabet := a;
+                          Loader2Model.ot_ip := ip_buckets ip; Loader2Model.ot_ep := ep_dict ep; Loader2Model.ot_cp := d;
+                          Loader2Model.ot_ln := ln_guesser n lv |}, Loader2Rt.VBool true).
+Proof. exact (@Loader2RoundTrip.roundtrip_omen_directory_translated). Qed.
+
+(* ... and the translated OmenScorer constructor on IP / CP / LN.level of the same directory (builtin open) *)
+Theorem C07_roundtrip_omen_scorer_translated :
+  forall (fo : fops) (C S : Type) (W : Loader2Rt.world fo C S),
+  (forall s, Loader2Rt.w_pint W s = parse_int IWS DZ s) ->
+  forall (base enc : pstr) (vmax : Loader2Rt.pyval (F fo) C S) (ip cp : list (Z * str)) (lv : list Z),
+  let pj := Loader2Rt.w_path_join W in
+  Forall level_item_ok ip -> Forall level_item_ok cp -> Forall (fun z => (0 <= z <= 10)%Z) lv ->
+  Loader2Rt.w_open W (pj [base; Loader2Model.n_omen; Loader2Model.n_ip_level]) (Some enc) None = Loader2Rt.XDone (lines_text (write_levels ip)) ->
+  Loader2Rt.w_open W (pj [base; Loader2Model.n_omen; Loader2Model.n_cp_level]) (Some enc) None = Loader2Rt.XDone (lines_text (write_levels cp)) ->
+  Loader2Rt.w_open W (pj [base; Loader2Model.n_omen; Loader2Model.n_ln_level]) None None = Loader2Rt.XDone (lines_text (TextFile.write_ln lv)) ->
+  Loader2_gen.py_omen_scorer_init fo W (Loader2Rt.VObj []) (Loader2Rt.VStr base) (Loader2Rt.VStr enc) vmax =
+  Loader2Rt.XDone (Loader2Model.enc_scorer (Loader2Rt.VStr enc) vmax
+                     {| Loader2Model.st_ip := ep_dict ip; Loader2Model.st_cp := ep_dict cp; Loader2Model.st_ln := lv;
+                        Loader2Model.st_ngram := match cp with it :: _ => Z.of_nat (length (snd it)) | [] => (-1)%Z end |},
+                   Loader2Rt.VNone).
+Proof. exact (@Loader2RoundTrip.roundtrip_omen_scorer_translated). Qed.
+
+(* the texts of the OMEN writer model (what the translated save_omen_rules_to_disk of C11 puts on disk) are the
+   texts of the round trips *)
+Theorem C07_source_omen_writer_text_levels : forall ls, OmenTrainer.level_text ls = write_levels (Loader2RoundTrip.zitems ls).
+Proof. exact Loader2RoundTrip.level_text_is_write_levels. Qed.
+Theorem C07_source_omen_writer_text_alphabet : forall a, OmenTrainer.alphabet_text a = write_alphabet (map (fun c => [c]) a).
+Proof. exact Loader2RoundTrip.alphabet_text_is_write_alphabet. Qed.
+Theorem C07_source_omen_writer_text_ln : forall ls, OmenTrainer.ln_text ls = TextFile.write_ln (map Z.of_nat ls).
+Proof. exact Loader2RoundTrip.ln_text_is_write_ln. Qed.
+
+(* ---- the walk over config.ini, translated (gen/Loader2Grammar_gen.v): which file of which section becomes which
+   key of the guesser's grammar / which Counter of the scorer *)
+Theorem C07_source_load_from_multiple_files_is_model :
+  forall (fo : fops) (C S : Type) (W : Loader2Rt.world fo C S) (s : S) (dir name : pstr) (files : list pstr) (base enc : pstr)
+         (g : list (Loader2Rt.pyval (F fo) C S * Loader2Rt.pyval (F fo) C S)),
+  Loader2Model.sect_wf fo W s dir name files ->
+  Loader2Grammar_gen.py_load_from_multiple_files fo W (Loader2Rt.VDict g) (Loader2Rt.VSect s) (Loader2Rt.VStr base) (Loader2Rt.VStr enc) =
+  Loader2Model.multi_files fo W base dir name enc files g.
+Proof. exact (@Loader2GrammarGenProofs.load_from_multiple_files_eq). Qed.
+
+Theorem C07_source_scorer_load_from_multiple_files_is_model :
+  forall (fo : fops) (C S : Type) (W : Loader2Rt.world fo C S) (s : S) (dir name : pstr) (files : list pstr) (base enc : pstr)
+         (gc : list (Loader2Rt.pyval (F fo) C S * Loader2Rt.pyval (F fo) C S)),
+  Loader2Model.sect_wf fo W s dir name files ->
+  Loader2Grammar_gen.py_scorer_load_from_multiple_files fo W (Loader2Rt.VDict gc) (Loader2Rt.VSect s) (Loader2Rt.VStr base) (Loader2Rt.VStr enc) =
+  Loader2Model.smulti_files fo W base dir enc files gc.
+Proof. exact (@Loader2GrammarGenProofs.scorer_load_from_multiple_files_eq). Qed.
+
+(* _load_config of the guesser: version check on the major versions as strings, encoding, uuid; IOError and
+   configparser.Error give False *)
+Theorem C07_source_load_config_is_model :
+  forall (fo : fops) (C S : Type) (W : Loader2Rt.world fo C S)
+         (ri : list (Loader2Rt.pyval (F fo) C S * Loader2Rt.pyval (F fo) C S)) (base ver : pstr),
+  Loader2Rt.dfind (Loader2Rt.VStr Loader2Model.k_version) ri = Some (Loader2Rt.VStr ver) ->
+  Loader2Grammar_gen.py_load_config fo W (Loader2Rt.VDict ri) (Loader2Rt.VStr base) Loader2Rt.VCfgNew =
+  Loader2Model.load_config_model fo W ri base ver.
+Proof. exact (@Loader2GrammarGenProofs.load_config_eq). Qed.
+
+(* load_grammar of the guesser: config, terminals, base structures in this order, `raise Exception` on the first
+   False, the result is (grammar, base_structures, ruleset_info) *)
+Theorem C07_source_load_grammar_is_model :
+  forall (fo : fops) (C S : Type) (W : Loader2Rt.world fo C S) (rn base ver sb sc folder : Loader2Rt.pyval (F fo) C S),
+  Loader2Grammar_gen.py_load_grammar fo W rn base ver sb sc folder =
+  Loader2Model.load_grammar_seq fo W (Loader2Grammar_gen.py_load_config fo W) (Loader2Grammar_gen.py_load_terminals fo W)
+    rn base ver sb sc folder.
+Proof. exact (@Loader2GrammarGenProofs.load_grammar_eq). Qed.
+
+(* load_grammar of the scorer on the object PCFGPasswordScorer.__init__ creates: encoding, then Years/1.txt,
+   Context/1.txt, Grammar/grammar.txt (always ASCII), then the sections BASE_K, BASE_A, CAPITALIZATION, BASE_D,
+   BASE_O into the matching count_* attribute *)
+Theorem C07_source_scorer_load_grammar_is_model :
+  forall (fo : fops) (C S : Type) (W : Loader2Rt.world fo C S) (v : Loader2Model.sviews) (base : pstr),
+  (forall c, Loader2Rt.cp_read_file (Loader2Rt.w_cfg W) (Loader2Rt.w_path_join W [base; Loader2Model.n_config_ini]) = Loader2Rt.XDone c ->
+             Loader2GrammarGenProofs.sviews_ok fo W c v) ->
+  Loader2Grammar_gen.py_scorer_load_grammar fo W (Loader2Rt.VObj (Loader2GrammarGenProofs.scorer_obj0 fo)) (Loader2Rt.VStr base) =
+  Loader2Model.scorer_grammar_model fo W v (Loader2GrammarGenProofs.scorer_obj0 fo) base.
+Proof. exact (@Loader2GrammarGenProofs.scorer_load_grammar_eq). Qed.
+
+Print Assumptions C07_roundtrip_omen_directory_translated.
+Print Assumptions C07_roundtrip_omen_scorer_translated.
+Print Assumptions C07_roundtrip_omen_cp_translated.
+Print Assumptions C07_roundtrip_omen_ln_translated.
+Print Assumptions C07_source_load_from_multiple_files_is_model.
+Print Assumptions C07_source_scorer_load_grammar_is_model.
+Print Assumptions C07_source_load_grammar_is_model.
